@@ -144,12 +144,14 @@ PROPS = {
     "C14": {
         "files": ["a2lfile/src/sort.rs", "a2lfile/src/itemlist.rs"],
         "trusted": T_STD,
-        "assumptions": ["textual output and reload after sort() are outside the claim (ordering kernel only)"],
+        "assumptions": ["the textual output / reload part is checked on one fully populated module (h_sort_all_kinds); the ordering kernel on symbolic small lists"],
         "jobs": [
             {"engine": "E2", "module": "sort", "harness": "h_sort_full_objectlist", "functions": ["sort::sort_objectlist_full", "itemlist::ItemList::sort_by"],
              "bound": "UNIT list of <= 3 items, symbolic distinct names over {a,b,c,d}, arbitrary previous uids/lines, any start uid", "timeout": 240},
             {"engine": "E2", "module": "sort", "harness": "h_sort_module", "functions": ["sort::sort", "sort::sort_objectlist_full"],
              "bound": "file with one module: 2 UNITs (symbolic name order), 1 COMPU_METHOD, optional MOD_PAR; sort applied twice", "timeout": 240},
+            {"engine": "E2", "module": "lib", "harness": "h_sort_all_kinds", "functions": ["A2lFile::sort", "sort::sort", "sort::sort_objectlist_full", "A2lFile::write_to_string", "writer::Writer::add_group", "writer::Writer::sort_function", "load_from_string"],
+             "bound": "one module with two elements in each of the 20 lists, written in reverse canonical and reverse alphabetical order; sort, write, reload, write, sort again", "timeout": 300, "extra_modules": ["tokenizer"]},
         ],
     },
     "C02": {
